@@ -134,7 +134,7 @@ def imap_prefix(sc, target, rng):
             sc.raw(msg, "tag:" + t, [ev_data(msg), "Timeout"], "literal-without-crlf")
         filler()
     elif target == "append_refused":
-        k = rng.choice(["unauth", "nofolder", "nobrace", "zero", "junk", "huge", "neg", "revbrace", "underscore", "prefixnum", "fewargs", "blank"])
+        k = rng.choice(["unauth", "nofolder", "nobrace", "zero", "junk", "huge", "neg", "revbrace", "prefixnum", "fewargs", "blank"])
         if k != "unauth":
             login()
         text, ok = {
@@ -142,14 +142,14 @@ def imap_prefix(sc, target, rng):
             "nobrace": ("APPEND INBOX 5", True), "zero": ("APPEND INBOX {0}", True),
             "junk": ("APPEND INBOX {abc}", True), "huge": ("APPEND INBOX {52428801}", True),
             "neg": ("APPEND INBOX {-5}", True), "revbrace": ("APPEND INBOX }5{", True),
-            "underscore": ("APPEND INBOX {1_0}", True), "fewargs": ("APPEND", True),
+            "fewargs": ("APPEND", True),
             "prefixnum": ("APPEND INBOX {99999999999999999999}", True), "blank": ("APPEND INBOX {}", True),
         }[k]
         sc.cmd(text, ok=ok, desc="APPEND-" + k)
     elif target == "append_oddsize":
         login()
-        k = rng.choice(["12x", "+7", " 9"])
-        n = {"12x": 12, "+7": 7, " 9": 9}[k]
+        k = rng.choice(["12x", "+7", " 9", "1_0"])
+        n = {"12x": 12, "+7": 7, " 9": 9, "1_0": 1}[k]
         t = sc.cmd("APPEND INBOX {%s}" % k, desc="APPEND-size-" + k.strip())
         msg = (b"Subject: q\r\n\r\n" + b"x" * 40)[:n]
         sc.raw(msg + b"\r\n", "tag:" + t, [ev_data(msg), ev_data(b"\r\n")], "literal+crlf")
@@ -426,6 +426,9 @@ def build_scenarios(chk):
         if e == "partial" and t not in PARTIAL_OK:
             e = "close"
         scs.append(imap_scenario(rng, t, tls, e))
+    # the size announcements of APPEND (Sscanf corner cases): several draws per run
+    for _ in range(40 if thorough else 4):
+        scs.append(imap_scenario(rng, rng.choice(["append_refused", "append_oddsize"]), True, "close"))
     for t in LMTP_TARGETS:
         scs.append(lmtp_scenario(rng, t, "close"))
     for t in ["greeted", "rcpt", "middata", "delivered"]:
